@@ -295,3 +295,183 @@ def nm(cx):
         cx.bad(None, construct=f"{mm}.{q}: {what}", detail=f"the object is {obj[0]}.{obj[1]} itself ({how}): every later generation in this process sees the change (the shared generator configuration must be copied before it is edited)", anchor=f"{mm}::{q}", sub="mutation")
     for obj in sorted(A.shared):
         cx.ok(None, construct=f"{obj[0]}.{obj[1]}: {nfun} functions of {len(trees)} modules analysed, {len(users)} use a shared container as a parameter default", detail="no function changes it in place through any alias (copies are not aliases)", anchor=f"{obj[0]}::{obj[1]}", sub="shared") if not bad_funcs else None
+
+
+# ------------------------------------------------------------------------------------------ MC memoised results
+def _is_memo(fn):
+    for d in fn.decorator_list:
+        t = d.func if isinstance(d, ast.Call) else d
+        nm = t.id if isinstance(t, ast.Name) else t.attr if isinstance(t, ast.Attribute) else None
+        if nm in ("lru_cache", "cache"):
+            return True
+    return False
+
+
+def _call_name(n):
+    return n.func.id if isinstance(n.func, ast.Name) else n.func.attr if isinstance(n.func, ast.Attribute) else None
+
+
+def analyse_memo(trees):
+    """-> (memo functions [(module, qualname)], producers {bare name: why}, findings [(module, qualname, node, what, chain)])
+
+    producers: functions whose RESULT may be the object a memoised function keeps (the memoised function itself; any
+    function returning the result of a producer, directly or through a local) -- resolved by bare name, as the package
+    calls its planners through many receivers (`ftype._inspect_args(..)`); fixed point."""
+    funcs = {m: _functions(t) for m, t in trees.items()}
+    memo = [(m, q) for m in trees for q, fn in funcs[m] if _is_memo(fn)]
+    producers = {q.split(".")[-1]: f"{m}.{q} is memoised (functools)" for m, q in memo}
+    if not memo:
+        return memo, producers, []
+
+    def aliases_of(fn):
+        al = {}
+        changed = True
+        while changed:
+            changed = False
+            for n in _own(fn):
+                tgts, val = [], None
+                if isinstance(n, ast.Assign):
+                    tgts, val = n.targets, n.value
+                elif isinstance(n, ast.AnnAssign) and n.value is not None:
+                    tgts, val = [n.target], n.value
+                elif isinstance(n, ast.NamedExpr):
+                    tgts, val = [n.target], n.value
+                src = may_be(val, al)
+                if src:
+                    for t in tgts:
+                        if isinstance(t, ast.Name) and t.id not in al:
+                            al[t.id] = src
+                            changed = True
+        return al
+
+    def may_be(e, al):
+        if e is None:
+            return None
+        if isinstance(e, ast.Name) and e.id in al:
+            return al[e.id]
+        if isinstance(e, ast.Call) and _call_name(e) in producers:
+            return f"`{norm(e)[:50]}` <- {producers[_call_name(e)]}"
+        if isinstance(e, ast.IfExp):
+            return may_be(e.body, al) or may_be(e.orelse, al)
+        if isinstance(e, ast.BoolOp):
+            for v in e.values:
+                r = may_be(v, al)
+                if r:
+                    return r
+        return None
+
+    changed = True
+    while changed:
+        changed = False
+        for m in trees:
+            for q, fn in funcs[m]:
+                nm = q.split(".")[-1]
+                if nm in producers:
+                    continue
+                al = aliases_of(fn)
+                for n in _own(fn):
+                    if isinstance(n, ast.Return) and n.value is not None:
+                        r = may_be(n.value, al)
+                        if r:
+                            producers[nm] = f"{m}.{q} returns {r}"
+                            changed = True
+                            break
+    # parameters a function changes in place (attribute / item stores, mutator calls): for results handed on
+    mut_params = {}
+    for m in trees:
+        for q, fn in funcs[m]:
+            pn = [p for p, _ in _params(fn)]
+            hit = set()
+            for n in _own(fn):
+                for b in _mutated_bases(n):
+                    if isinstance(b, ast.Name) and b.id in pn:
+                        hit.add(b.id)
+            if hit:
+                mut_params.setdefault(q.split(".")[-1], []).append((m, q, pn, hit))
+    found = []
+    for m in trees:
+        for q, fn in funcs[m]:
+            al = aliases_of(fn)
+            if not al and not any(isinstance(n, ast.Call) and _call_name(n) in producers for n in _own(fn)):
+                continue
+            for n in _own(fn):
+                for b in _mutated_bases(n):
+                    r = may_be(b, al)
+                    if r:
+                        found.append((m, q, n, f"`{norm(n)[:70]}` changes it in place", r))
+                if isinstance(n, ast.Call) and _call_name(n) in mut_params:
+                    for cm, cq, pn, hit in mut_params[_call_name(n)]:
+                        off = 1 if pn and pn[0] in ("self", "cls", "instance") and isinstance(n.func, ast.Attribute) else 0
+                        for i, a in enumerate(n.args):
+                            if i + off < len(pn) and pn[i + off] in hit and may_be(a, al):
+                                found.append((m, q, n, f"`{norm(n)[:70]}` hands it to {cm}.{cq}, which changes its parameter `{pn[i + off]}` in place", may_be(a, al)))
+                        for kw in n.keywords:
+                            if kw.arg in hit and may_be(kw.value, al):
+                                found.append((m, q, n, f"`{norm(n)[:70]}` hands it to {cm}.{cq}, which changes its parameter `{kw.arg}` in place", may_be(kw.value, al)))
+    return memo, producers, found
+
+
+def _mutated_bases(n):
+    """expressions whose object the statement / call n changes in place"""
+    out = []
+    if isinstance(n, (ast.Assign, ast.AugAssign, ast.AnnAssign)):
+        tgts = n.targets if isinstance(n, ast.Assign) else [n.target]
+        for t in tgts:
+            for tt in (t.elts if isinstance(t, (ast.Tuple, ast.List)) else [t]):
+                if isinstance(tt, (ast.Subscript, ast.Attribute)):
+                    out.append(tt.value)
+    elif isinstance(n, ast.Delete):
+        for t in n.targets:
+            if isinstance(t, (ast.Subscript, ast.Attribute)):
+                out.append(t.value)
+    elif isinstance(n, ast.Call):
+        if isinstance(n.func, ast.Attribute) and n.func.attr in MUTATORS:
+            out.append(n.func.value)
+        elif isinstance(n.func, ast.Name) and n.func.id in ("setattr", "delattr") and n.args:
+            out.append(n.args[0])
+    return out
+
+
+MC_POSITIVE = {
+    "planner": (
+        "import functools\n"
+        "class Info:\n    def __init__(self, size):\n        self.size = size\n"
+        "@functools.lru_cache(maxsize=None)\n"
+        "def _inspect_text(text):\n    return Info(len(text) + 9)\n"
+        "@functools.lru_cache()\n"
+        "def _width(kind):\n    return (8, kind)\n"
+        "class MetaS(type):\n    def _inspect_args(cls, text):\n        info = _inspect_text(text)\n        return info\n"
+    ),
+    "user": (
+        "def set_field(ftype, value, reserved):\n    info = ftype._inspect_args(value)\n    info.size = reserved\n    return info\n"
+        "def read_only(ftype, value):\n    info = ftype._inspect_args(value)\n    return info.size + 1\n"
+        "def widen(ftype, value):\n    info = ftype._inspect_args(value)\n    grow(info)\n"
+        "def grow(i):\n    i.size += 8\n"
+        "def local_only(n):\n    info = dict(size=n)\n    info['size'] = 3\n    return info\n"
+        "def uses_width(kind):\n    w = _width(kind)\n    return w[0]\n"
+    ),
+}
+
+
+@rule("MC", ["C03", "C10", "C01", "C11"], "effect analysis over the whole package: the result of a memoised function (functools.lru_cache / cache) is shared by every later caller with equal arguments -- nobody changes it in place")
+def mc(cx):
+    """A planner result (`Info`: size, offsets, the prepared value) is edited by its callers -- `Field.__set__` and
+    `Array.__setitem__` write the RESERVED size into it before handing it to the writer.  That is harmless as long as
+    every call makes a fresh object.  Memoising such a function makes the edit stick for the rest of the process: a later
+    plan for an equal value starts from the edited object (seeded C03-h: a text once assigned to a roomy slot was planned
+    with that slot's size ever after -- a copy then wrote past its extent, a fitting assignment elsewhere was refused).
+    Decided structurally: memoised functions, everything that may return their result (fixed point, bare-name call
+    resolution), and every in-place change (attribute / item store, mutator call, hand-over to a function that changes
+    its parameter) of a value that may be such a result."""
+    m = cx.m
+    memo, prod, pos = analyse_memo({k: ast.parse(v) for k, v in MC_POSITIVE.items()})
+    got = sorted({q for _m, q, *_ in pos})
+    cx.need(got == ["set_field", "widen"] and len(memo) == 2, f"[MC] self-check: the built-in example gives {got} / {memo}")
+    trees = {name: m.mod(name).raw_tree for name in sorted(m.mods)}
+    memo, prod, found = analyse_memo(trees)
+    nfun = sum(len(_functions(t)) for t in trees.values())
+    for mm, q, node, what, chain in found:
+        cx.bad(None, construct=f"{mm}.{q}: {what}", detail=f"the value may be the object a memoised function keeps ({chain}): every later call with equal arguments gets the changed object", anchor=f"{mm}::{q}", sub="mutation")
+    if not found:
+        cx.ok(None, construct=f"{len(memo)} memoised function(s) among {nfun} functions of {len(trees)} modules" + (f": {', '.join(f'{a}.{b}' for a, b in memo)}; {len(prod)} functions may return their results" if memo else ""),
+              detail="no result of a memoised function is changed in place" if memo else "nothing is memoised: every planner call makes a fresh object", anchor="typeutils::Info", sub="memo")
